@@ -18,7 +18,8 @@ RULE = (
     "replacing <= 2 subtrees with wildcards (distinct names, same name, typed), plus type / tuple / set templates, plus "
     "self-match of every tree and of every statement of the construct corpus; space 3 (search): every sequence of <= 3 "
     "(thorough 4 over a smaller alphabet) statements placed in each body kind (module, def, class, if, else, for, "
-    "for-else, while, with) x expression, statement and statement-sequence patterns through finditer, compared with an "
+    "for-else, while, with, nested def/if, if+else / for+else / while+else with the statements in both, statements followed by an "
+    "if/else, elif chain) x expression, statement and statement-sequence patterns through finditer, compared with an "
     "independent occurrence finder. oracle: bool(implementation) == bool(reference), plain named bindings equal, "
     "reported occurrences equal. non-trivial = the reference says 'match' / at least one occurrence"
 )
@@ -159,6 +160,13 @@ BODIES = {
     "while": "while q:\n{I}",
     "with": "with cm:\n{I}",
     "nested": "def o():\n    if q:\n{II}\n    return 0",
+    # the same statements in the main body AND in the else body (the main body is as long as any pattern)
+    "if_else_both": "if q:\n{I}else:\n{I}",
+    "for_else_both": "for i in r:\n{I}else:\n{I}",
+    "while_else_both": "while q:\n{I}else:\n{I}",
+    # a body whose last statement is itself an if/else holding the statements
+    "stmts_then_ifelse": "{B}if q:\n    z = 0\nelse:\n{I}",
+    "elif_chain": "if q:\n{I}elif q2:\n{I}else:\n{I}",
 }
 SEARCH_PATTERNS = ["a", "f({{x}})", "f(a)", "t = {{v}}", "{{x}} = f({{y}})", "f(f({{x}}))", "{{f}}(a)",
                    "a\nf(a)", "t = {{v}}\nt = {{w}}", "t = {{v}}\nt = {{v}}", "{{s}}\nf(a)", "f(a)\n{{...}}", "a\na",
